@@ -129,12 +129,6 @@ def composeSerialize (c : Obj) : Except Err PyVal :=
     .ok (.dict (if (c.get (lit "label")).truthy
                 then base ++ [(lit "label", c.get (lit "label")), (lit "final", c.get (lit "final"))] else base))
 
-/-- `x.get(k, d)` on something that must be a dict -/
-def dictGetD (v : PyVal) (k : Str) (d : PyVal) : Except Err PyVal :=
-  match v with
-  | .dict kvs => .ok ((lookup kvs k).getD d)
-  | _ => .error .attributeError
-
 /-- `Compose.deserialize_1_0` + `validate()` (`data` is the payload dict) -/
 def composeDeserialize (t : VTuple) (data : PyVal) : Except Err Obj :=
   match t with
